@@ -11,7 +11,6 @@ import (
 	protoMetricsV1 "github.com/lindb/common/proto/gen/v1/linmetrics"
 
 	"github.com/lindb/lindb/config"
-	"github.com/lindb/lindb/kv"
 	"github.com/lindb/lindb/models"
 	"github.com/lindb/lindb/pkg/option"
 	"github.com/lindb/lindb/pkg/timeutil"
@@ -143,7 +142,7 @@ func runMemdbHistory(rnd *rand.Rand, spec *histSpec, dir, logFile string) (res *
 		prefix = "C03/empty-series-bucket/memdb/"
 	}
 	fam.Compact()
-	kv.VerifFamilyWait(fam)
+	waitIdle(fam)
 	errs := logs.newErrors()
 	after, err := read()
 	if err != nil {
